@@ -17,6 +17,8 @@ import time
 
 VERIF = os.path.dirname(os.path.abspath(__file__))
 REPO = os.environ.get("VERIF_REPO", "/repo")
+# where evidence and replay files go (default: inside /verif; the seeded-change runner points this at a scratch directory)
+OUTDIR = os.environ.get("VERIF_OUT", "")
 BUILD = os.path.join(VERIF, "build")
 NPROC = int(os.environ.get("VERIF_JOBS", "0")) or min(16, os.cpu_count() or 4)
 
@@ -254,9 +256,9 @@ def merge(stats):
 
 
 def write_replay(prop, harness, tier, v):
-    os.makedirs(os.path.join(VERIF, "replays"), exist_ok=True)
+    os.makedirs(os.path.join(OUTDIR or VERIF, "replays"), exist_ok=True)
     h = hashlib.sha256((v["key"]).encode()).hexdigest()[:10]
-    path = os.path.join(VERIF, "replays", "%s-%s.json" % (prop, h))
+    path = os.path.join(OUTDIR or VERIF, "replays", "%s-%s.json" % (prop, h))
     json.dump({"property": prop, "harness": harness, "tier": tier, "cfg": v["cfg"], "choices": v["choices"], "clause": v["clause"],
                "key": v["key"], "observed": v["msg"], "log": v["log"].split("\n")}, open(path, "w"), indent=1)
     return path
@@ -285,7 +287,7 @@ def native_build_c18():
 def finish_native(prop, tier, level, cov, viols, wall, assumptions, harness):
     """viols: list of dicts with clause, key, msg, replay (dict written to the replay file)."""
     known = {e["key"]: e for e in load_known() if e.get("property") == prop and e.get("status") == "known"}
-    os.makedirs(os.path.join(VERIF, "evidence"), exist_ok=True)
+    os.makedirs(os.path.join(OUTDIR or VERIF, "evidence"), exist_ok=True)
     uniq = {}
     for v in viols:
         uniq.setdefault(v["key"], v)
@@ -293,15 +295,15 @@ def finish_native(prop, tier, level, cov, viols, wall, assumptions, harness):
     cov["known_findings_seen"] = sorted(k for k in uniq if k in known)
     ev = {"property_id": prop, "tier": tier, "seed": int(os.environ.get("VERIF_SEED", "0") or 0), "level": level, "coverage": cov,
           "assumptions": assumptions, "wall_s": round(wall, 2), "violations": len(new)}
-    json.dump(ev, open(os.path.join(VERIF, "evidence", prop + ".json"), "w"), indent=1)
+    json.dump(ev, open(os.path.join(OUTDIR or VERIF, "evidence", prop + ".json"), "w"), indent=1)
     for k in sorted(uniq):
         if k in known:
             print("KNOWN-FINDING: property=%s %s %s" % (prop, k, known[k].get("what", uniq[k]["msg"])))
     rc = 0
-    os.makedirs(os.path.join(VERIF, "replays"), exist_ok=True)
+    os.makedirs(os.path.join(OUTDIR or VERIF, "replays"), exist_ok=True)
     for k, v in sorted(new.items()):
         h = hashlib.sha256(k.encode()).hexdigest()[:10]
-        path = os.path.join(VERIF, "replays", "%s-%s.json" % (prop, h))
+        path = os.path.join(OUTDIR or VERIF, "replays", "%s-%s.json" % (prop, h))
         rep = dict(v.get("replay", {}))
         rep.update({"property": prop, "harness": harness, "tier": tier, "key": k, "clause": v["clause"], "observed": v["msg"]})
         json.dump(rep, open(path, "w"), indent=1)
@@ -590,8 +592,8 @@ def check(prop, tier):
         ],
         "wall_s": round(wall, 2), "violations": len(uniq),
     }
-    os.makedirs(os.path.join(VERIF, "evidence"), exist_ok=True)
-    json.dump(ev, open(os.path.join(VERIF, "evidence", prop + ".json"), "w"), indent=1)
+    os.makedirs(os.path.join(OUTDIR or VERIF, "evidence"), exist_ok=True)
+    json.dump(ev, open(os.path.join(OUTDIR or VERIF, "evidence", prop + ".json"), "w"), indent=1)
     for k, v in sorted(seen_known.items()):
         print("KNOWN-FINDING: property=%s %s %s" % (prop, k, known_keys[k].get("what", v["msg"])))
     rc = 0
